@@ -49,6 +49,7 @@ func runC13(c *Ctx, pr *PropertyRun) {
 	serveErrorTable(c, pr, "C13")
 	// numeric request elements are unsigned: the decoder refuses a negative value
 	unsignedElementsRule(c, pr, "C13")
+	typedNilRule(c, pr, "C13")
 
 	// a request path or Destination that does not denote a resource (NUL,
 	// not absolute after cleaning) is refused with 4xx by the sanitiser: its
